@@ -124,3 +124,101 @@ pub fn run(toks: Vec<Tok>) -> Vec<Tok> {
         out
     })
 }
+
+/// A socket error seen by the READING side of one flow (the peer answers and goes away, the client sends once
+/// more before the reply is read: the pending ICMP error is reported by the next recv), on the single-threaded
+/// runtime so that the order is by construction.
+/// in : [timeout_ms]
+/// out: [996] | [q1 reached the peer, one of three later datagrams on the same pair reached the restarted peer,
+///       its reply came back with the right label, bystander flow still works, multiplexer alive,
+///       open outbound sockets after everything has been idle for > 2 x timeout,
+///       the failed flow's local port can be bound again by then]
+pub fn read_error(toks: Vec<Tok>) -> Vec<Tok> {
+    let timeout = Duration::from_millis(toks[0][0] as u64);
+    let rt = tokio::runtime::Builder::new_current_thread().enable_all().build().unwrap();
+    rt.block_on(async move {
+        let ctx = crate::ctxutil::simple_ctx(&crate::ctxutil::Opts { allow_private: true, ipv6_available: true }, None);
+        let (tx_in, rx_in) = mpsc::channel(64);
+        let (tx_out, mut rx_out) = mpsc::unbounded_channel::<udp::Datagram>();
+        let ctx2 = ctx.clone();
+        let mux = tokio::spawn(async move { udp::run_multiplexer(&ctx2, rx_in, tx_out, timeout, |_, _| {}).await });
+        let bind = |a: SocketAddr| -> Option<std::net::UdpSocket> {
+            let s = std::net::UdpSocket::bind(a).ok()?;
+            s.set_nonblocking(true).ok()?;
+            Some(s)
+        };
+        async fn receives(s: &std::net::UdpSocket, want: &[u8]) -> Option<SocketAddr> {
+            let mut buf = [0u8; 256];
+            for _ in 0..40 {
+                match s.recv_from(&mut buf) {
+                    Ok((n, from)) if &buf[..n] == want => return Some(from),
+                    Ok(_) => continue,
+                    Err(_) => tokio::time::sleep(Duration::from_millis(10)).await,
+                }
+            }
+            None
+        }
+        let client: SocketAddr = "10.8.0.2:40001".parse().unwrap();
+        let other: SocketAddr = "10.8.0.2:40002".parse().unwrap();
+        let Some(bystander) = bind("127.0.0.1:0".parse().unwrap()) else { return vec![vec![996]] };
+        let by_addr = bystander.local_addr().unwrap();
+        let _ = tx_in.try_send(udp::Datagram { source: other, destination: by_addr, payload: b"b1".to_vec() });
+        let b1 = receives(&bystander, b"b1").await.is_some();
+        let Some(peer) = bind("127.0.0.1:0".parse().unwrap()) else { return vec![vec![996]] };
+        let peer_addr = peer.local_addr().unwrap();
+        let _ = tx_in.try_send(udp::Datagram { source: client, destination: peer_addr, payload: b"q1".to_vec() });
+        let flow_sock = receives(&peer, b"q1").await;
+        let q1 = flow_sock.is_some();
+        if let Some(fs) = flow_sock {
+            // no yielding from here ...
+            let _ = peer.send_to(b"r1", fs);
+            drop(peer);
+            let _ = tx_in.try_send(udp::Datagram { source: client, destination: peer_addr, payload: b"q2".to_vec() });
+            // ... to here
+        } else {
+            drop(peer);
+        }
+        tokio::time::sleep(Duration::from_millis(150)).await;
+        while rx_out.try_recv().is_ok() {}
+        // the peer is back on the same port: later datagrams on the same pair must get through again
+        let mut later = 0u128;
+        let mut reply_ok = 0u128;
+        if let Some(peer) = bind(peer_addr) {
+            for q in [b"q3", b"q4", b"q5"] {
+                let _ = tx_in.try_send(udp::Datagram { source: client, destination: peer_addr, payload: q.to_vec() });
+                if let Some(from) = receives(&peer, q).await {
+                    later = 1;
+                    let _ = peer.send_to(b"r3", from);
+                    let r = tokio::time::timeout(Duration::from_millis(500), async {
+                        loop {
+                            match rx_out.recv().await {
+                                Some(d) if d.payload == b"r3" => break Some(d),
+                                Some(_) => continue,
+                                None => break None,
+                            }
+                        }
+                    })
+                    .await;
+                    if let Ok(Some(d)) = r {
+                        reply_ok = (d.source == peer_addr && d.destination == client) as u128;
+                    }
+                    break;
+                }
+            }
+        } else {
+            return vec![vec![996]];
+        }
+        let _ = tx_in.try_send(udp::Datagram { source: other, destination: by_addr, payload: b"b2".to_vec() });
+        let b2 = receives(&bystander, b"b2").await.is_some();
+        let alive = !mux.is_finished();
+        // everything idle for more than two timeouts: no flow is left, so no socket may be left
+        tokio::time::sleep(2 * timeout + Duration::from_millis(400)).await;
+        let g = metrics::snapshot(&ctx).outbound_udp_sockets;
+        let port_free = match flow_sock {
+            Some(fs) => std::net::UdpSocket::bind(fs).is_ok() as u128,
+            None => 1,
+        };
+        drop(tx_in);
+        vec![vec![q1 as u128, later, reply_ok, (b1 && b2) as u128, alive as u128, g.max(0) as u128, port_free]]
+    })
+}
